@@ -27,6 +27,7 @@ type c12Case struct {
 	Strict  bool          `json:"strict,omitempty"`
 	SingleP bool          `json:"singleP,omitempty"` // run in a worker process started with GOMAXPROCS=1
 	OneCPU  bool          `json:"oneCPU,omitempty"`  // with SingleP: the worker process is confined to one CPU (taskset), so runtime.NumCPU() is 1 too
+	Alias   bool          `json:"alias,omitempty"`   // through the deprecated exported function (Output, Walk, Mkdir, Verify)
 	Target  string        `json:"target,omitempty"`  // mkdir / verify: spelling of the target directory option ("", slash, rel)
 	IOKind  int           `json:"ioKind,omitempty"`  // dynamic type of the reader/writer handed to the library (ops.Faults.IOKind)
 }
@@ -47,6 +48,7 @@ func genC12Opts(t *rapid.T, c *c12Case) {
 	c.OneCPU = c.SingleP && rapid.Bool().Draw(t, "oneCPU")
 	c.IOKind = rapid.SampledFrom([]int{0, 0, 0, 1, 3, 4, 5, 7}).Draw(t, "ioKind")
 	c.Target = rapid.SampledFrom([]string{"", "", "slash", "rel"}).Draw(t, "target")
+	c.Alias = rapid.IntRange(0, 3).Draw(t, "alias") == 0
 }
 
 var c12Ops = []string{"text", "noiter", "json", "yaml", "toml", "dryrun", "walk", "mkdir-dry", "mkdir-real", "verify"}
@@ -59,6 +61,9 @@ func c12Make(c c12Case, op string, massive bool, doc []byte) ops.Case {
 	cs.Opts.Massive = massive
 	cs.Opts.Exts, cs.Opts.HasExts, cs.Opts.Branch, cs.Opts.Strict = c.Exts, c.HasExts, c.Branch, c.Strict
 	cs.Faults.IOKind = c.IOKind
+	if c.Alias {
+		cs.Entry = "mdalias"
+	}
 	if op == "mkdir-real" || op == "mkdir-dry" || op == "verify" {
 		cs.Opts.TargetOpt = c.Target
 	}
@@ -73,7 +78,6 @@ func c12Make(c c12Case, op string, massive bool, doc []byte) ops.Case {
 		cs.Op = "walk"
 	case "mkdir-dry":
 		cs.Op = "mkdir"
-		cs.Entry = "md"
 		cs.Opts.DryRun = true
 		cs.FS = &ops.FSSpec{}
 	case "mkdir-real":
@@ -360,7 +364,7 @@ func c12Record(col *collector, c c12Case, kinds []string) {
 	if c.SingleP {
 		cl = append(cl, "process-with-one-P")
 	}
-	col.eval(len(kinds) > 0 || len(c.Doc) >= 1024, hash64(string(c.Doc), c.Op, fmt.Sprint(c.Massive, c.Exts, c.HasExts, c.Branch, c.Strict, c.SingleP, c.OneCPU, c.IOKind, c.Target)), cl...)
+	col.eval(len(kinds) > 0 || len(c.Doc) >= 1024, hash64(string(c.Doc), c.Op, fmt.Sprint(c.Massive, c.Exts, c.HasExts, c.Branch, c.Strict, c.SingleP, c.OneCPU, c.IOKind, c.Target, c.Alias)), cl...)
 	col.sample(func() any {
 		return map[string]any{"doc": truncate(string(c.Doc), 200), "op": c.Op, "massive": c.Massive}
 	})
@@ -410,7 +414,7 @@ func TestC12Constants(t *testing.T) {
 		for _, op := range c12Ops {
 			for _, massive := range []bool{false, true} {
 				n++
-				c := c12Case{Doc: []byte(d), Op: op, Massive: massive, SingleP: n%4 == 0, OneCPU: n%8 == 0}
+				c := c12Case{Doc: []byte(d), Op: op, Massive: massive, SingleP: n%4 == 0, OneCPU: n%8 == 0, Alias: n%7 == 0}
 				if n%3 == 0 {
 					// rotate through the hostile extension values, two at a time
 					c.HasExts = true
